@@ -62,12 +62,15 @@ def run(c):
         # -coverage makes TLC keep cost statistics for every (recursive) sub-expression: minutes and GBs here
         return c.tlc_model(name, constants=k, workers=workers, timeout=1500, coverage=False)
 
+    skip_models = bool(os.environ.get("VERIF_SKIP_MODELS"))      # developer switch for mutation runs: code side only
+    none = {"violated": None, "module": "(skipped)"}
+
     def stage_a():
         return c.parallel([
             lambda: c.build("record_io", ["record_io.cpp"], omp=False),
             lambda: c.build("record_io_san", ["record_io.cpp"], omp=False, san="address,undefined", flags=SAN_FLAGS),
-            lambda: model("MMModel", mmc, True, 8),
-            lambda: model("BinModel", binc, True, 6),
+            lambda: none if skip_models else model("MMModel", mmc, True, 8),
+            lambda: none if skip_models else model("BinModel", binc, True, 6),
         ])
     rio, rsan, mm_fixed, bin_fixed = stage_a()
 
@@ -81,8 +84,8 @@ def run(c):
 
     # the transcription of the pinned tree (Checked = FALSE) is expected to violate FaultInv: a model-level
     # finding, turned into a verdict only by the recorded executions below
-    pinned = c.parallel([lambda: model("MMModel", {"NR": 2, "NC": 3, "SubStride": 7}, False, 4),
-                         lambda: model("BinModel", {"NR": 2, "NC": 3}, False, 4)])
+    pinned = [] if skip_models else c.parallel([lambda: model("MMModel", {"NR": 2, "NC": 3, "SubStride": 7}, False, 4),
+                                                lambda: model("BinModel", {"NR": 2, "NC": 3}, False, 4)])
 
     drift = {"drift0": 0, "drift1": 0}
     rejected = 0
